@@ -72,7 +72,7 @@ def _module_consts(func):
     return out
 
 
-def inline(func_or_node, expr, depth=6):
+def inline(func_or_node, expr, depth=6, keep=()):
     fn = getattr(func_or_node, 'node', func_or_node)
     if expr is None:
         return None
@@ -82,6 +82,8 @@ def inline(func_or_node, expr, depth=6):
         {n.id for n in ast.walk(fn) if isinstance(n, ast.Name) and isinstance(n.ctx, ast.Store)}
     defs = {k: v for k, v in defs.items() if k not in shadow}
     defs.update(_single_defs(fn))
+    for k in keep:
+        defs.pop(k, None)
     return _Sub(defs, depth).visit(copy.deepcopy(expr))
 
 
